@@ -339,6 +339,10 @@ def rules(ck, P):
                     init = ir.strip(init["recv"])
                 if s["init"].get("k") == "try" or ir.contains(s["init"], lambda y: y.get("k") == "try"):
                     bi = i
+        from . import mvt
+        cnt = mvt.exit_counts(P, {"body": blk}, lambda y: 1 if (y.get("k") == "call" and (y.get("q") or "").endswith("BlockIndex::from_brotli_blob")) else None)
+        ck.check(cnt == {1}, "R-COMMIT-ORDER", b["q"] + "|f-block-index-every-path", "every successful path of open_reader decodes a block index exactly once (no fallback to an empty index)",
+                 "open_reader can succeed without decoding a block index (decodes per successful path: %s): a header whose block-index range reads as empty — the provisional header, or a torn final one — opens as an empty container" % sorted(cnt), ir.loc(b))
         ck.check(bi is not None and ir.contains(sts[bi], lambda y: y.get("k") == "field" and y.get("name") == "blocks_range" and "FileHeader" in ((ir.strip(y["e"]).get("t") or "") + (ir.strip(y["e"]).get("ta") or ""))), "R-COMMIT-ORDER", b["q"] + "|f-block-index",
                  "the block index named by the header is read and decoded unconditionally, with `?`, before the reader is returned",
                  "the block index is not decoded unconditionally before Ok", ir.loc(b))
